@@ -181,7 +181,7 @@ class StoreMachine(Machine):
                 ctx.probes['torn_file_left'] += 1
             ctx.digest.add('W', name, status)
 
-    def do_read(self, name, slot, fault, cfg_override=None):
+    def do_read(self, name, slot, fault, cfg_override=None, reuse=None):
         ctx = self.ctx
         r = self.ref.get(name)
         if r is None:
@@ -203,8 +203,14 @@ class StoreMachine(Machine):
                 ctx.probes['torn_read_raised'] += 1
             ctx.digest.add('R', name, 'torn')
             return
-        status, obj = self.io(lambda: self.read(name, cfg), fault,
-                              lambda: self.read(name, cfg), 'read')
+        if reuse is not None:
+            # a long-lived object that held something else is re-used as the reader
+            self.ctx.probes['read_into_existing_object'] += 1
+            status, obj = self.io(lambda: self.read(name, cfg, reuse), fault,
+                                  lambda: self.read(name, cfg, copy.deepcopy(reuse)), 'read')
+        else:
+            status, obj = self.io(lambda: self.read(name, cfg), fault,
+                                  lambda: self.read(name, cfg), 'read')
         ctx.stats['R_' + status] += 1
         ctx.fp.append(('R', status, self.cfg_fp(cfg)))
         if status == 'ok':
@@ -217,6 +223,10 @@ class StoreMachine(Machine):
             if slot is not None:
                 self.objs[slot] = obj
         else:
+            if reuse is not None:
+                # a read that failed part-way leaves the re-used object half-filled: drop it
+                for k in [k for k, o in self.objs.items() if o is reuse]:
+                    del self.objs[k]
             ctx.digest.add('R', name, status)
 
     def do_cycle(self, name):
